@@ -562,6 +562,27 @@ Theorem generated_type_tables :
 Proof. vm_compute. auto. Qed.
 Print Assumptions generated_type_tables.
 
+(* GENERATED SUITE TABLE: proof.CreateVerifyData EXECUTED by the translator with every stock suite (as getSuites builds
+   them), the real canonicaliser and the suite's published context, in both signature representations: changing or
+   removing an option changes the bytes to be signed EXACTLY when the model's excluded-key rule says the option is kept
+   (so created, verificationMethod, proofPurpose, domain, challenge are covered by every stock suite in both
+   representations, nonce only in the detached-JWS representation) - the content_opts hypothesis of tamper_detected,
+   discharged by execution for the stock contexts. *)
+Definition cov_opt (s : string) : string :=
+  if String.eqb s "domain-removed" then "domain" else if String.eqb s "challenge-removed" then "challenge" else s.
+Theorem suite_option_coverage_agrees :
+  forallb (fun row : string * bool * list (string * bool) => let '(ty, jws, cols) := row in
+             mem_str ty supported_proof_types &&
+             forallb (fun c => Bool.eqb (snd c) (negb (mem_str (cov_opt (fst c)) (if jws then jws_deleted_keys else excluded_keys)))) cols &&
+             forallb (fun k => existsb (fun c => String.eqb (fst c) k && snd c) cols)
+                     ["created"; "verificationMethod"; "proofPurpose"; "domain"; "challenge"; "domain-removed"; "challenge-removed"])
+          suite_option_coverage = true /\
+  forallb (fun ty => existsb (fun row : string * bool * list (string * bool) => let '(t, jws, _) := row in String.eqb t ty && jws) suite_option_coverage &&
+                     existsb (fun row : string * bool * list (string * bool) => let '(t, jws, _) := row in String.eqb t ty && negb jws) suite_option_coverage)
+          ["Ed25519Signature2018"; "Ed25519Signature2020"; "JsonWebSignature2020"; "EcdsaSecp256k1Signature2019"; "BbsBlsSignature2020"] = true.
+Proof. vm_compute. auto. Qed.
+Print Assumptions suite_option_coverage_agrees.
+
 Definition jx_cred : obj :=
   [("@context", JStr "ctx"); ("credentialSubject", JObj [("id", JStr "did:s")]); ("id", JStr "urn:1");
    ("issuanceDate", JStr "D1"); ("issuer", JObj [("id", JStr "did:i"); ("name", JStr "N")])].
